@@ -381,6 +381,10 @@ class MiniEval:
             raise Unsupported('starred outside display')
         if isinstance(e, ast.Call):
             return self.call(e, env)
+        if isinstance(e, ast.Lambda):
+            fdef = ast.FunctionDef(name='<lambda>', args=e.args, body=[ast.Return(value=e.body, lineno=e.lineno, col_offset=0)],
+                                   decorator_list=[], lineno=e.lineno, col_offset=0)
+            return ('<func>', fdef, env)
         if isinstance(e, ast.NamedExpr):
             v = self.expr(e.value, env)
             self.assign(e.target, v, env)
@@ -520,6 +524,15 @@ class MiniEval:
                 if 'key' in kwargs and f.id in ('sorted', 'min', 'max'):
                     kwargs = {**kwargs, 'key': self.as_callable(kwargs['key'])}
                 return getattr(builtins, f.id)(*args, **kwargs)
+            if f.id == 'iter' and len(args) == 1 and type(args[0]) in (list, tuple, str, dict, set, frozenset, range):
+                return iter(args[0])
+            if f.id == 'next' and args and type(args[0]).__name__.endswith('iterator'):
+                try:
+                    return next(args[0])
+                except StopIteration:
+                    if len(args) > 1:
+                        return args[1]
+                    raise Raised('StopIteration', e) from None
             raise Unsupported(f'call of {f.id!r}')
         if isinstance(f, ast.Attribute):
             recv = self.expr(f.value, env)
@@ -548,7 +561,7 @@ class MiniEval:
 
 
 _BUILTIN_TYPES = {'type': type, 'bytearray': bytearray, 'object': object, 'complex': complex, 'range': range, 'list': list, 'set': set, 'dict': dict, 'tuple': tuple, 'str': str, 'int': int, 'float': float,
-                  'bool': bool, 'frozenset': frozenset, 'bytes': bytes, 'True': True, 'False': False, 'None': None}
+                  'bool': bool, 'Exception': Exception, 'BaseException': BaseException, 'frozenset': frozenset, 'bytes': bytes, 'True': True, 'False': False, 'None': None}
 
 
 def _is_generator(fn) -> bool:
